@@ -60,8 +60,8 @@ def tasks(tier):
     quick = tier == "quick"
     out = []
 
-    def add(subset, driver, s0, first, kind="A", expr=False):
-        out.append({"subset": subset, "driver": driver, "s0": s0, "first": first, "kind": kind, "expr": expr})
+    def add(subset, driver, s0, first, kind="A", expr=False, variant=None):
+        out.append({"subset": subset, "driver": driver, "s0": s0, "first": first, "kind": kind, "expr": expr, "variant": variant})
 
     for first in range(3):
         for s0 in (range(4) if not quick else (0, 3)):
@@ -71,6 +71,14 @@ def tasks(tier):
             if quick and (i + first) % 3:
                 continue
             add(f"single:{i}", "sync-facade", 0 if quick else (i % 3), first, kind="S")
+    for first in range(3):
+        add("all", "sync-facade", 0, first, kind="S", variant="first-none")   # first event returns None, a queued one does not
+        add("all", "sync-facade", 2, first, kind="S", variant="int-guards")   # truthy / falsy ints instead of bools
+    add("all", "sync-facade", 1, 0, kind="S", variant="int-guards")
+    add("all", "sync-facade", 0, 0, kind="S", variant="single-result")          # exactly one result, possibly falsy (0)
+    add("all", "in-loop", 2, 0, kind="S", variant="single-result")
+    add("all", "sync-facade", 0, 0, kind="A", variant="guarded-validator")    # validator and guard on the same candidate
+    add("single:1", "sync-facade", 0, 0, kind="A", variant="guarded-validator")
     for first in (0,):
         add("all", "sync-facade", 1, first, kind="G", expr=True)
         add("guards", "sync-facade", 1, first, kind="G")
@@ -86,7 +94,7 @@ BOUNDS = {
     "methods)}; drivers {plain call without a loop, awaited inside a running loop}; scenario A (C04): first event with a raise, or a nested send optionally "
     "followed by a raise, at any callback invocation, then a follow-up event; scenario S: one nested send; pre-state a and the from-construction scenario "
     "(activation through the first event); coroutine callbacks yield once to the loop between begin and end; a guard written as a boolean expression over two "
-    "coroutine guards; a list of two coroutine guards that both yield.",
+    "coroutine guards; a list of two coroutine guards that yield unevenly; variants: first event returning None with a queued event returning a value, int-valued guards, a candidate carrying both a validator and a guard.",
     "thorough": "all pre-states, all 7 single-coroutine twins on every first event, scenario A with the in-loop driver.",
 }
 OUTSIDE = "machines driven in turn from different OS threads (the symbolic engine is per-thread; C06 covers the loop-per-thread facade structurally); rtc=False (rejected by the async engine at construction, documented)"
@@ -121,7 +129,12 @@ def run(ctx, params):
     mctx = MemoCtx(ctx)
     subset = params["subset"]
     expr = params["expr"]
-    base = chain_am(asyncs_all=False, with_listener=True)
+    variant = params.get("variant")
+    single = variant in ("first-none", "single-result")
+    base = chain_am(asyncs_all=False, with_listener=not single, drop=("before_transition",) if single else ())
+    if variant == "guarded-validator":
+        base["transitions"][0]["cond"] = ["ok0"]
+        base["methods"]["machine"].append("ok0")
     if expr:
         # (b, go) is guarded by a boolean expression over two guards instead of one plain name
         base["transitions"][1]["cond"] = ["ok1 and ok2"]
@@ -142,7 +155,8 @@ def run(ctx, params):
         script_kw = {"budget": 2, "actions": ("send", "raise"), "send_events": ("go", "hop"), "values": "int", "policy": "send-then-raise"}
         calls = 2
     elif kind == "S":
-        script_kw = {"budget": 1, "actions": ("send",), "send_events": ("go", "hop"), "values": "int"}
+        script_kw = {"budget": 1, "actions": ("send",), "send_events": ("go", "hop"), "values": "first_none" if variant == "first-none" else "int",
+                     "guard_kind": "int" if variant == "int-guards" else "bool"}
         calls = 1
     else:
         script_kw = {"budget": 0, "values": "int"}
